@@ -87,7 +87,7 @@ func allocHolds(al *ssa.Alloc, q *ssa.Parameter) bool {
 }
 
 func ruleEmphEdge(c *Ctx) {
-	c.Rule("EMPH-EDGE", "In emphasisFlags the character before a delimiter run is decoded exactly when the run does not start the source (Start > 0) and from exactly source[:Start]; the character after it exactly when the run does not end the source (End < len(source)) and from exactly source[End:]; otherwise the stand-in is a character the whitespace classifier accepts (the beginning and end of the line count as whitespace). Decided by enumerating the orderings of Start, End and len(source) over a small domain (the conditions only compare them).")
+	c.Rule("EMPH-EDGE", "In emphasisFlags the character before a delimiter run is decoded exactly when the run does not start the text of its line (Start > L, with L the lower bound handed in, 0 if there is none) and from exactly source[L:Start]; the character after it exactly when the run does not end the source (End < len(source)) and from exactly source[End:]; otherwise the stand-in is a character the whitespace classifier accepts (the beginning and end of the line count as whitespace). Decided by enumerating the orderings of Start, End and len(source) over a small domain (the conditions only compare them).")
 	p := c.P
 	fn := p.Func("emphasisFlags")
 	if fn == nil || fn.Blocks == nil {
@@ -103,6 +103,13 @@ func ruleEmphEdge(c *Ctx) {
 			if t.Kind() == types.String {
 				src = q
 			}
+		}
+	}
+	// an optional lower bound: the position from which the text of the current line starts
+	var lb *ssa.Parameter
+	for _, q := range fn.Params {
+		if bt, ok := q.Type().Underlying().(*types.Basic); ok && bt.Kind() == types.Int {
+			lb = q
 		}
 	}
 	var decLast, decNext *ssa.Call
@@ -128,12 +135,18 @@ func ruleEmphEdge(c *Ctx) {
 		return
 	}
 	e := newBSET(p)
-	type triple struct{ s, e, l int64 }
+	type triple struct{ b, s, e, l int64 }
 	var dom []triple
 	for s := int64(0); s <= 2; s++ {
 		for en := s; en <= s+1; en++ {
 			for l := en; l <= en+2; l++ {
-				dom = append(dom, triple{s, en, l})
+				if lb == nil {
+					dom = append(dom, triple{0, s, en, l})
+					continue
+				}
+				for b := int64(0); b <= s; b++ {
+					dom = append(dom, triple{b, s, en, l})
+				}
 			}
 		}
 	}
@@ -171,6 +184,9 @@ func ruleEmphEdge(c *Ctx) {
 			return 0, false
 		}
 		st.symVal = func(v ssa.Value) (int64, bool) {
+			if lb != nil && v == ssa.Value(lb) {
+				return d.b, true
+			}
 			if f, ok := structFieldOfParam(v, span); ok {
 				if f == si {
 					return d.s, true
@@ -239,8 +255,8 @@ func ruleEmphEdge(c *Ctx) {
 						continue
 					}
 				}
-				if call == decLast && (lo != 0 || hi != d.s) {
-					argBad = fmt.Sprintf("the preceding character is decoded from source[%d:%d], not source[:Start]", lo, hi)
+				if call == decLast && (lo != d.b || hi != d.s) {
+					argBad = fmt.Sprintf("the preceding character is decoded from source[%d:%d], not from the line's text up to Start (source[%d:%d])", lo, hi, d.b, d.s)
 				}
 				if call == decNext && (lo != d.e || hi != d.l) {
 					argBad = fmt.Sprintf("the following character is decoded from source[%d:%d], not source[End:]", lo, hi)
@@ -289,12 +305,12 @@ func ruleEmphEdge(c *Ctx) {
 		}
 		st.from[0] = -1
 		dfs(fn.Blocks[0])
-		desc := fmt.Sprintf("Start=%d End=%d len(source)=%d", d.s, d.e, d.l)
+		desc := fmt.Sprintf("line start=%d Start=%d End=%d len(source)=%d", d.b, d.s, d.e, d.l)
 		if argBad != "" {
 			bad = append(bad, desc+": "+argBad)
 		}
 		for _, k := range []*ssa.Call{decLast, decNext} {
-			want := d.s > 0
+			want := d.s > d.b
 			what := "preceding"
 			if k == decNext {
 				want = d.e < d.l
@@ -365,4 +381,99 @@ func ruleEmphEdge(c *Ctx) {
 		}
 		c.Check(okAll, "EMPH-EDGE", "emphasisFlags:stand-in:"+what, dc.Pos(), fmt.Sprintf("stand-in for a missing %s character %v must be classified as whitespace", what, consts))
 	}
+}
+
+// EDGE-LINE (C09, C11): the character before a delimiter run is looked for in the text of the run's own line only.
+func ruleEdgeLine(c *Ctx) {
+	c.Rule("EDGE-LINE", "Inside a container every line of a paragraph carries the container's prefix ('>', indentation) in front of its text, and the inline phase sees the text as a list of line nodes over the root block's source. The character before a delimiter run that is the first thing on its line is the line ending of the line before — white space — not the byte in front of it in the source, which is the last byte of the prefix: '>' directly followed by the run (a quote marker needs no space after it) would count as punctuation and change the run's flanking. Hence, at every call site in the package, the flanking classifier is handed either an explicit lower bound that is the Start of the current line node (state.unparsed[state.unparsedPos]), or the source re-sliced from that Start with both boundaries of the run shifted by it; a classifier that is handed the whole source reads the prefix.")
+	p := c.P
+	fn := p.Func("emphasisFlags")
+	if !c.NeedFunc("EDGE-LINE", fn, "emphasisFlags") {
+		return
+	}
+	lbIdx, srcIdx, spanIdx := -1, -1, -1
+	for i, q := range fn.Params {
+		switch t := q.Type().Underlying().(type) {
+		case *types.Basic:
+			if t.Kind() == types.Int {
+				lbIdx = i
+			}
+		case *types.Slice:
+			srcIdx = i
+		case *types.Struct:
+			spanIdx = i
+		}
+	}
+	isLineStart := func(v ssa.Value) bool {
+		k := termKey(v, 0)
+		return strings.Contains(k, "unparsed") && strings.Contains(k, "unparsedPos") && strings.HasSuffix(k, ".Start")
+	}
+	n := 0
+	for _, caller := range p.Funcs {
+		if caller.Pkg != p.CMs {
+			continue
+		}
+		eachInstr(caller, func(in ssa.Instruction) {
+			call, ok := in.(*ssa.Call)
+			if !ok || call.Call.StaticCallee() != fn {
+				return
+			}
+			n++
+			key := fmt.Sprintf("%s:emphasisFlags#%d", shortFuncName(caller), n)
+			// form A: an explicit lower bound
+			if lbIdx >= 0 && lbIdx < len(call.Call.Args) {
+				arg := call.Call.Args[lbIdx]
+				c.Check(isLineStart(arg), "EDGE-LINE", key, call.Pos(), "the lower bound handed to the flanking classifier is "+termKey(arg, 0)+", not the Start of the current line node state.unparsed[state.unparsedPos]")
+				return
+			}
+			// form B: the bytes handed over start at the line's text, and the run's span is shifted by the same amount
+			if srcIdx < 0 || spanIdx < 0 {
+				c.Undecided("EDGE-LINE", key, call.Pos(), "the classifier's parameters are not (bytes, span)")
+				return
+			}
+			sl, ok := call.Call.Args[srcIdx].(*ssa.Slice)
+			if !ok || sl.Low == nil || !isLineStart(sl.Low) {
+				c.Viol("EDGE-LINE", key, call.Pos(), "the flanking classifier is handed the source from its very beginning (or from a position that is not the Start of the current line node): at the start of a continuation line inside a container it takes the container's prefix for the preceding character ('> *a⏎>*\"b\"*' closes the emphasis opened on the first line)")
+				return
+			}
+			shifted := 0
+			why := ""
+			if ld, ok := call.Call.Args[spanIdx].(*ssa.UnOp); ok && ld.Op == token.MUL {
+				if al, ok := ld.X.(*ssa.Alloc); ok {
+					for _, r := range refsOf(al) {
+						fa, ok := r.(*ssa.FieldAddr)
+						if !ok {
+							continue
+						}
+						for _, rr := range refsOf(fa) {
+							st, ok := rr.(*ssa.Store)
+							if !ok || st.Addr != ssa.Value(fa) {
+								continue
+							}
+							bo, ok := st.Val.(*ssa.BinOp)
+							if ok && bo.Op == token.SUB && (bo.Y == sl.Low || sameTerm(bo.Y, sl.Low)) {
+								shifted++
+							} else {
+								why = "a boundary of the run handed to the classifier is not shifted by the line's start: " + termKey(st.Val, 0)
+							}
+						}
+					}
+				}
+			}
+			c.Check(shifted == 2 && why == "", "EDGE-LINE", key, call.Pos(), fmt.Sprintf("the bytes start at the line's text; %d of the run's two boundaries are expressed relative to it. %s", shifted, why))
+		})
+	}
+	if n == 0 {
+		c.Undecided("EDGE-LINE", "instance-count", fn.Pos(), "no call of emphasisFlags found")
+	}
+}
+
+func init() {
+	addControls(
+		Control{Name: "flanking-looks-at-whole-root-source", Props: []string{"C09", "C11", "C06"}, File: "inlines.go",
+			Old: "\tlineStart := state.unparsed[state.unparsedPos].Span().Start\n\trunInLine := Span{", New: "\tlineStart := 0\n\trunInLine := Span{", Expect: "EDGE-LINE/(*InlineParser).parseDelimiterRun",
+			Why: "the defect repaired by /repo 0825c58: '> *a\\n>*\"b\"*' closed the emphasis of the first line"},
+		Control{Name: "neg-flanking-line-text-in-a-local", Props: []string{"C09", "C11"}, File: "inlines.go", Negative: true,
+			Old: "\telem := delimiterStackElement{\n\t\tflags: activeFlag | emphasisFlags(state.source[lineStart:], runInLine),", New: "\tlineText := state.source[lineStart:]\n\tflags := emphasisFlags(lineText, runInLine)\n\telem := delimiterStackElement{\n\t\tflags: activeFlag | flags,"},
+	)
 }
